@@ -336,6 +336,12 @@ impl Property for C12 {
             .map(|s| s.to_string())
             .collect()
     }
+    fn supervisor_phase(&self, ctx: &mut Ctx, env: &Env) {
+        if ctx.tier == Tier::Thorough {
+            // pest slices the input unchecked and the AST builders index into pairs: the same inputs under Miri
+            miri_cross_run(ctx, env, "C12", &[MiriPlan { phase: "mutation", cases: 160 }, MiriPlan { phase: "nesting", cases: (NESTS.len() * 64) as u64 / 13 }, MiriPlan { phase: "grammar", cases: 48 }], 600);
+        }
+    }
     fn run_case(&self, ctx: &mut Ctx, phase: &str, idx: u64, rng: &mut Rng) {
         match phase {
             "growth" => {
